@@ -50,7 +50,7 @@ func verifLemma_C33_stream(ox, oy, x0, y0, x1, y1 int) {
 func verifHelper_C34check(points []r2.Point, eps float64) {
 	verifrt.Assume(!(0.0 > eps)) // a tolerance is not negative (nor NaN-ordered below zero)
 	want := referenceDouglasPeuckerSimplify(points, eps)
-	got := douglasPeuckerSimplify(points, eps)
+	got := Simplify(points, eps) // the entry point the renderer calls
 	verifrt.Assert(len(got) == len(want), "same-length")
 	for i := range want {
 		verifrt.Assert(i < len(got) && got[i].X == want[i].X && got[i].Y == want[i].Y, "same-points")
